@@ -146,7 +146,7 @@ PROPS = {
     "C10": dict(
         lean_props=["H4.Props.C10", "H4.Props.C10Files"],
         engines=[
-            E("attr", "e_attr.c", model="attr", quick=dict(cases=240, chunk=8), thorough=dict(cases=2400, seeds=4, chunk=16, timeout=1800)),
+            E("attr", "e_attr.c", model="attr", quick=dict(cases=320, chunk=8), thorough=dict(cases=2400, seeds=4, chunk=16, timeout=1800)),
         ],
         trusted_base=["Vdata/Vgroup layer below the attribute Vdatas (VHstoredatam, VSread/VSwrite, DFKconvert): not modelled; the model's disk form of an attribute list is tied to cdf.c only through reopen behaviour (Tie B)",
                       "reference numbers handed out by Hnewref are inputs of the model (checked distinct by the engine)",
